@@ -149,9 +149,9 @@ def rule_pairs(chk):
                         rnodes.append(n)
                         matched_resets.add(id(c2))
             ok1, wit = xcfg.must_pass([xcfg.entry], [xcfg.exit, xcfg.raise_exit], rnodes)
-            # nothing that can raise or re-enter precedes the reset
-            before = xcfg.reach([xcfg.entry], avoid=set(rnodes))
-            early = [n for n in before if calls_in_node(n) or n.kind in ("raise_stmt", "return", "with_enter")]
+            # (whatever runs before the reset must not be able to leave __exit__ without it:
+            #  that is exactly the must-pass query above, exceptional edges included)
+            early = []
             # other writers of the token attribute
             writers = []
             for m in set(f.cls.methods.values()):
@@ -172,7 +172,7 @@ def rule_pairs(chk):
                     continue
                 bad_writers.append((m, n))
             chk.req(bool(rnodes) and ok1 and not early and not bad_writers, "C04.pair", label, where,
-                    good="__exit__ resets with self.%s as its first effectful step on every path" % tok_attr,
+                    good="__exit__ resets with self.%s on every path to every exit (normal and exceptional)" % tok_attr,
                     fail=lambda: ("__exit__ has no reset(self.%s)" % tok_attr) if not rnodes else
                          ("a path through __exit__ skips the reset: %s" % xcfg.fmt_path(wit)) if not ok1 else
                          ("__exit__ does `%s` before restoring the previous action" % early[0].text()) if early else
